@@ -13,6 +13,7 @@ import Jrpc.Keepalive
 import Jrpc.Redial
 import Jrpc.Forwarder
 import Jrpc.Epoch
+import Jrpc.TransSearch
 /-
   Jrpc.Ops — dispatch of driver operations onto the model's executable definitions.
 -/
@@ -658,8 +659,28 @@ def opKeepalive (j : Json) : R Json := do
     i := i + 1
   return Json.mkObj [("accepted", true), ("renewals", (s.renewals : Json)), ("credits", (credits : Json))]
 
+/-- op "transsearch": run the regenerated programs of one translation module (or all) against the model on a finite
+    grid; answers the differing / panicking inputs found. -/
+def opTransSearch (j : Json) : R Json := do
+  let m := strD j "module" "all"
+  let mods := if m = "all" then TransSearch.allModules else [m]
+  let mut found : Array Json := #[]
+  let mut searched : Array Json := #[]
+  for md in mods do
+    match TransSearch.byModule md with
+    | none => throw s!"no search for translation module {md}"
+    | some rs =>
+      searched := searched.push md
+      for r in rs do
+        match r with
+        | some b => found := found.push (Json.mkObj [("module", md), ("fn", b.fn), ("input", b.input), ("program", b.program),
+                                                      ("model", b.model), ("panics", b.panics)])
+        | none => pure ()
+  return Json.mkObj [("searched", Json.arr searched), ("found", Json.arr found)]
+
 def run (j : Json) : R Json := do
   match (← str j "op") with
+  | "transsearch" => opTransSearch j
   | "http" => opHttp j
   | "handle" => opHandle j
   | "wscall" => opWsCall j
